@@ -140,6 +140,15 @@ def loader_consts() -> dict:
     inner_origin = [n for n in ast.walk(adds) if isinstance(n, ast.Assign) and ast.unparse(n.targets[0]) == "inner_meta.origin"]
     if len(origin_self) != 1 or len(inner_origin) != 1 or ast.unparse(inner_origin[0].value) == "self":
         raise TranslateError("_add_sources: metadata.origin = self / inner_meta.origin = <other> not recognised")
+    # the pin is applied BEFORE its requirers are linked (a project listed among its own requirers - a self-referential
+    # extra - must find its real metadata, not the stand-in made for requirers without a pin)
+    pin_calls = [i for i, st in enumerate(adds.body) if isinstance(st, ast.Expr) and isinstance(st.value, ast.Call)
+                 and ast.unparse(st.value) == "self.solution.add_dist(metadata, None, req)"]
+    loops = [i for i, st in enumerate(adds.body) if isinstance(st, ast.For) and ast.unparse(st.iter) == "zip(pkg_names, constraints)"]
+    all_pin_calls = [n for n in ast.walk(adds) if isinstance(n, ast.Call) and ast.unparse(n) == "self.solution.add_dist(metadata, None, req)"]
+    if len(pin_calls) != 1 or len(loops) != 1 or len(all_pin_calls) != 1:
+        raise TranslateError("_add_sources: add_dist(metadata, None, req) / the loop over zip(pkg_names, constraints) not recognised")
+    out["l_pin_before_requirers"] = ("bool", pin_calls[0] < loops[0])
     # a pin without a recorded location carries no link at all (the writer prints candidate.link[1])
     cands = [n for n in ast.walk(adds) if isinstance(n, ast.Call) and isinstance(n.func, ast.Name) and n.func.id == "Candidate"]
     if len(cands) != 1 or len(cands[0].args) < 7 or ast.unparse(cands[0].args[6]) != "(None, url) if url else None":
@@ -306,7 +315,9 @@ def gen_sol_consts() -> str:
         body += f"Definition {k} : {'nat' if isinstance(v, int) else 'string'} := {v if isinstance(v, int) else cs(v)}.\n"
     for k in sorted(lc):
         v = lc[k]
-        if isinstance(v, int):
+        if isinstance(v, tuple) and v[0] == "bool":
+            body += f"Definition {k} : bool := {'true' if v[1] else 'false'}.\n"
+        elif isinstance(v, int):
             body += f"Definition {k} : nat := {v}.\n"
         elif isinstance(v, list):
             body += f"Definition {k} : list string := {T.coq_list([cs(x) for x in v])}.\n"
